@@ -264,6 +264,8 @@ func BuildIntake(r IntakeReq, kt KeyType, base protocol.Protocol, variant int) (
 		p.MaxOperationSize = uint(L)
 	case "over":
 		p.MaxOperationSize = uint(L - 1)
+	case "huge":
+		p.MaxOperationSize = hugeLimits[variant%2]
 	case "overByWhitespace":
 		p.MaxOperationSize = uint(L)
 		req = [][]byte{append(append([]byte{}, req...), '\n'), append([]byte(" "), req...), append(append([]byte("\t"), req...), ' ', ' '), append(append([]byte{}, req...), '\r', '\n')}[variant%4]
@@ -275,6 +277,8 @@ func BuildIntake(r IntakeReq, kt KeyType, base protocol.Protocol, variant int) (
 			p.MaxDeltaSize = uint(Ld)
 		case "over":
 			p.MaxDeltaSize = uint(Ld - 1)
+		case "huge":
+			p.MaxDeltaSize = hugeLimits[variant%2]
 		}
 	}
 	maxlen := 0
@@ -288,9 +292,14 @@ func BuildIntake(r IntakeReq, kt KeyType, base protocol.Protocol, variant int) (
 		p.MaxOperationHashLength = uint(maxlen)
 	case "over":
 		p.MaxOperationHashLength = uint(maxlen - 1)
+	case "huge":
+		p.MaxOperationHashLength = hugeLimits[variant%2]
 	}
 	return req, p, nil
 }
+
+// hugeLimits: limits beyond the range of a signed 64-bit integer.
+var hugeLimits = []uint{1 << 63, ^uint(0)}
 
 // hashStrings collects the hash-valued strings of a request (top level, suffix data, delta, signed payload).
 func hashStrings(m map[string]interface{}) []string {
